@@ -31,3 +31,45 @@ class OpContract:
     @property
     def uid(self):
         return f"{self.file}::{self.func}"
+
+
+class MonitorContract:
+    """sidecar contract of one lock-protected class (K3): monitor invariant, rely/guarantee, tokens.
+
+    fields: name -> kind  (bool | int | nat | optref | ref | reflist | lock | callback:<token> |
+                           effectref:<token> | scheduler | const:<py>)
+    inv:    monitor invariant over the field names (holds whenever the lock is free)
+    rely:   relation over `old`/`new` that every critical section of every method guarantees
+    held:   field -> 'slot' | 'list'   (where the container keeps the items it owns)
+    methods: name -> list of argument kinds ('item' = a disposable handed over with its token)
+    mint:   [(token, condition over old/new)]  a critical section that makes it true claims the token
+    ensures: method -> stable postcondition (checked after interference at exit)
+    stable_requires: method -> thread-local stable fact the caller guarantees (by tokens it holds)
+    may_raise: method -> exception class names that are part of the contract (a rejected call
+               returns the argument tokens to the caller)
+    """
+
+    def __init__(self, name, props, file, cls, fields, inv="True", rely=None, held=None, methods=None,
+                 mint=(), ensures=None, stable_requires=None, may_raise=None, lock_reentrant=True,
+                 private=(), witness=None, notes=""):
+        self.name = name
+        self.props = props
+        self.file = file
+        self.cls = cls
+        self.fields = fields
+        self.inv = inv
+        self.rely = rely
+        self.held = held or {}
+        self.methods = methods or {}
+        self.mint = list(mint)
+        self.ensures = ensures or {}
+        self.stable_requires = stable_requires or {}
+        self.may_raise = may_raise or {}
+        self.lock_reentrant = lock_reentrant
+        self.private = set(private)
+        self.witness = witness
+        self.notes = notes
+
+    @property
+    def uid(self):
+        return f"{self.file}::{self.cls}"
